@@ -127,6 +127,9 @@ func Canon(x interface{}) string {
 }
 
 func canon(b *strings.Builder, x interface{}) {
+	if b.Len() > 1<<20 {
+		return // cyclic or absurdly large value: the rendering is cut (and says so once)
+	}
 	switch v := x.(type) {
 	case nil:
 		b.WriteString("null")
@@ -390,7 +393,7 @@ func (s *ASpec) consider(n *ANode, typ string, cur M, pending interface{}, emitt
 		if br.Pattern != nil {
 			bss, err := match.Match(clone(br.Pattern), clone(against), match.Bindings(cloneM(cur)))
 			if err != nil {
-				return []Outcome{{Err: "match-error", Consumed: consumed}}
+				return []Outcome{{Err: "match-error", Consumed: consumed, Emitted: emitted}}
 			}
 			for _, b := range bss {
 				cands = append(cands, M(b))
@@ -405,14 +408,14 @@ func (s *ASpec) consider(n *ANode, typ string, cur M, pending interface{}, emitt
 			case 1:
 				return []Outcome{{HasTo: true, Node: resolveTarget(br.Target, cands[0]), Bs: cands[0], Consumed: consumed, Emitted: emitted}}
 			default:
-				return []Outcome{{Err: "too-many-bindingss", Consumed: consumed}}
+				return []Outcome{{Err: "too-many-bindingss", Consumed: consumed, Emitted: emitted}}
 			}
 		}
 		var outs []Outcome
 		for _, c := range cands {
 			r := br.Guard.Model(c)
 			if r.Err {
-				outs = append(outs, Outcome{Err: "guard-error", Consumed: consumed})
+				outs = append(outs, Outcome{Err: "guard-error", Consumed: consumed, Emitted: emitted})
 				continue
 			}
 			if r.Bs != nil {
@@ -543,9 +546,9 @@ func (s *ASpec) Walk(node string, bs M, pendings []interface{}, limit int, bp st
 				eb["error"] = "<text>"
 				eb["lastNode"] = node
 				eb["lastBindings"] = cloneM(cur)
-				o = Outcome{HasTo: true, Node: "error", Bs: eb, Consumed: consumed}
+				o = Outcome{HasTo: true, Node: "error", Bs: eb, Consumed: consumed, Emitted: o.Emitted}
 			} else {
-				o = Outcome{Consumed: consumed}
+				o = Outcome{Consumed: consumed, Emitted: o.Emitted}
 			}
 		}
 		w.Strides = append(w.Strides, RStride{FromNode: node, FromBs: cloneM(cur), Out: o})
